@@ -144,7 +144,8 @@ inductive SrvStep
 def parseSrvScript (s : String) : List SrvStep :=
   if s = "-" then []
   else (s.splitOn ",").map fun st =>
-    if st.startsWith "W" then .failAfter ((String.ofList st.toList.tail).toNat?.getD 0)
+    if st.startsWith "K" then .decode       -- a held handler mutex is waited for: no effect on the outcome
+    else if st.startsWith "W" then .failAfter ((String.ofList (st.toList.tail.takeWhile Char.isDigit)).toNat?.getD 0)
     else if st.startsWith "!" then
       if st = "!s" then .shutdown else if st = "!x" then .readErr else .decode
     else .data ((ofHex st).getD [])
